@@ -1478,6 +1478,62 @@ def describe_state(f):
     return s
 
 
+# ---------------------------------------------------------------- objects between the stores and sqlite (source check)
+CONN_API = ("commit", "rollback", "execute", "executemany", "executescript", "cursor", "__enter__", "__exit__")
+
+
+def interposed_objects(repo=None):
+    """Source check over every module of the store package: anything that stands between the table stores and a plain
+    sqlite3.Connection -- a class that defines part of the connection interface (wrapper or subclass), an assignment
+    to such a method / to isolation_level / autocommit of some object (monkey patch, mode change), a connect() call
+    with factory= / isolation_level= / autocommit=, methods of the facade that are not delegations but begin / commit
+    / abort helpers.  -> [description]"""
+    repo = repo or REPO
+    out = []
+    d = os.path.join(repo, STORE_DIR)
+    try:
+        files = sorted(f for f in os.listdir(d) if f.endswith(".py"))
+    except OSError:
+        return out
+    store_classes = set()
+    for fn in files:
+        try:
+            tree = ast.parse(open(os.path.join(d, fn)).read())
+        except Exception:
+            continue
+        for n in ast.walk(tree):
+            if isinstance(n, ast.ClassDef):
+                defs = sorted(m.name for m in n.body if isinstance(m, ast.FunctionDef) and m.name in CONN_API)
+                bases = [ast.unparse(b) for b in n.bases]
+                if defs or any("Connection" in b and "sqlite3" in b for b in bases):
+                    out.append("%s: class %s%s defines %s of the connection interface%s" % (
+                        fn, n.name, "(%s)" % ", ".join(bases) if bases else "", ", ".join(defs) or "nothing",
+                        " and forwards everything else (__getattr__)" if any(
+                            isinstance(m, ast.FunctionDef) and m.name == "__getattr__" for m in n.body) else ""))
+            elif isinstance(n, (ast.Assign, ast.AugAssign)):
+                for t in (n.targets if isinstance(n, ast.Assign) else [n.target]):
+                    if isinstance(t, ast.Attribute) and t.attr in CONN_API + ("isolation_level", "autocommit"):
+                        out.append("%s line %d: %s is assigned (commit / execute intercepted or transaction mode changed)" % (
+                            fn, n.lineno, ast.unparse(t)))
+            elif isinstance(n, ast.Call) and isinstance(n.func, ast.Attribute) and n.func.attr == "connect":
+                for k in n.keywords:
+                    if k.arg in ("factory", "isolation_level", "autocommit"):
+                        out.append("%s line %d: connect(%s=%s)" % (fn, n.lineno, k.arg, ast.unparse(k.value)[:40]))
+    # helpers on the facade that steer transactions
+    try:
+        tree = ast.parse(open(os.path.join(d, FACADE)).read())
+        for cls in [n for n in tree.body if isinstance(n, ast.ClassDef)]:
+            if any(isinstance(m, ast.FunctionDef) and m.name in CONN_API for m in cls.body):
+                continue            # reported above as a wrapper
+            for m in cls.body:
+                if isinstance(m, ast.FunctionDef) and not m.name.startswith("_") and \
+                        re.search(r"(?i)batch|transaction|commit|rollback|abort|begin", m.name):
+                    out.append("%s: %s.%s() is a transaction helper on the facade" % (FACADE, cls.name, m.name))
+    except Exception:
+        pass
+    return out
+
+
 # ---------------------------------------------------------------- the MEASURED path
 class Inconclusive(Unrecognised):
     """the measurement of a method says nothing (the sentinels made it raise something unrelated)"""
@@ -1747,14 +1803,7 @@ def measured_init(pb, obs):
 def build_measured(obs, reason):
     """observation of harness/c13_tracecheck.py -> model dict (see emit); Unrecognised when what was observed
     cannot be written in the model language"""
-    c = obs["conn"]
-    if not c["text_factory_bytes"]:
-        fail("measured connection", "text_factory is not bytes")
-    if c["isolation_level"] not in ("", "DEFERRED") or c["autocommit"] != -1:
-        fail("measured connection", "not in sqlite3's default implicit-transaction mode (isolation_level=%r, "
-                                    "autocommit=%r)" % (c["isolation_level"], c["autocommit"]))
-    if c["in_transaction_after_init"]:
-        fail("measured connection", "constructing the stores leaves a transaction open")
+    build_conn_only(obs)
     tables = measured_tables(obs)
     for t in tables.values():
         if not t["key"]:
@@ -1897,6 +1946,9 @@ def _meta_tables(tables, names):
 
 def build_conn_only(obs):
     c = obs["conn"]
+    if c.get("interposed"):
+        fail("measured connection", "the connection is not a plain sqlite3.Connection / commit is intercepted: "
+             + "; ".join(c["interposed"][:4]))
     if not c["text_factory_bytes"]:
         fail("measured connection", "text_factory is not bytes")
     if c["isolation_level"] not in ("", "DEFERRED") or c["autocommit"] != -1:
@@ -1941,6 +1993,11 @@ def extract(repo=None, scratch=None):
     if state:
         syn = None
         ex["syntactic_error"] = "; ".join(ex["state_outside_db"])
+    inter = interposed_objects(repo)
+    ex["interposed"] = inter
+    if inter:
+        syn = None
+        ex["syntactic_error"] = "the connection is not a plain sqlite3.Connection / commit is intercepted: " + "; ".join(inter[:6])
     own = None
     if scratch is None:
         import tempfile
@@ -1968,6 +2025,9 @@ def extract(repo=None, scratch=None):
         else:
             try:
                 model = build_measured(obs, ex["syntactic_error"])
+                if inter:
+                    raise Unrecognised("not used: an object stands between the stores and sqlite, what a commit does is "
+                                       "not what the measured variants show")
                 if state:
                     # the source keeps state outside the database: whatever the (finitely many) measured variants
                     # show, the programs are not a function of the database alone
